@@ -1,6 +1,7 @@
 import Proofs.Render.Schedule
 import Proofs.Render.Compose
 import Proofs.Render.NoLeak
+import Proofs.Render.Tcp
 /-!
 # C09 — every request gets exactly one final response reflecting the handler outcome
 
@@ -31,13 +32,20 @@ def expectedFinal (site : Option Site) (req : Request) : Option Resp :=
       match r.lookup req.code with
       | none => some { code := 133, payload := notAllowedDiag, noResponse := none }  -- 4.05
       | some (.returns (some c) p nr) =>
-        some { code := c, payload := p, noResponse := nr <|> req.noResponse }
+        -- a message whose code is no response code (a request code, 0.00, 7.xx, …) answers
+        -- nothing: it is as unusable as a value that is no message, bare 5.00
+        if 64 ≤ c ∧ c < 192 then some { code := c, payload := p, noResponse := nr <|> req.noResponse }
+        else some { code := 160, payload := [], noResponse := none }
       | some (.returns none p nr) =>
         -- "Content" for GET/FETCH, "Deleted" for DELETE, "Changed" for anything else
         some { code := (if req.code = 1 then 69 else if req.code = 5 then 69
                         else if req.code = 4 then 66 else 68),
                payload := p, noResponse := nr <|> req.noResponse }
-      | some (.raisesRenderable c d) => some { code := c, payload := d, noResponse := none }
+      | some (.raisesRenderable c d) =>
+        -- "a raised renderable error is sent with its own code and diagnostic payload"; one whose
+        -- rendering is no response is a failing error renderer
+        if 64 ≤ c ∧ c < 192 then some { code := c, payload := d, noResponse := none }
+        else some { code := 160, payload := [], noResponse := none }
       | some (.raisesOther _) => some { code := 160, payload := [], noResponse := none }
       | some (.returnsNonMessage _) => some { code := 160, payload := [], noResponse := none }
       | some (.rendererFails _ _) => some { code := 160, payload := [], noResponse := none }
@@ -46,6 +54,15 @@ def expectedFinal (site : Option Site) (req : Request) : Option Resp :=
 
 /-- the model's rendering path (`contextRender` → `siteRender` → `resourceRender`, the exception
 turned into a message by `excToMessage`) computes the table -/
+theorem isResponseCode_iff (c : Nat) : isResponseCode c = true ↔ (64 ≤ c ∧ c < 192) := by
+  simp [isResponseCode]
+
+theorem defaultCode_response (c : Nat) : isResponseCode (defaultCode c) = true := by
+  unfold defaultCode
+  split
+  · rfl
+  · split <;> rfl
+
 theorem finalOfRes_contextRender (site : Option Site) (req : Request) :
     finalOfRes (contextRender site req) = expectedFinal site req := by
   unfold contextRender expectedFinal
@@ -60,7 +77,8 @@ theorem finalOfRes_contextRender (site : Option Site) (req : Request) :
       by_cases hc : req.code = 0 ∨ 32 ≤ req.code
       · have : isRequestCode req.code = false := by
           simp only [isRequestCode, Bool.and_eq_false_iff, decide_eq_false_iff_not]; omega
-        simp [this, hc, finalOfRes, excToMessage]
+        simp only [this, Bool.not_false, ↓reduceIte, hc, finalOfRes]
+        rfl
       · have : isRequestCode req.code = true := by
           simp only [isRequestCode, Bool.and_eq_true, decide_eq_true_eq]; omega
         simp only [this, Bool.not_true, Bool.false_eq_true, ↓reduceIte, hc]
@@ -70,7 +88,15 @@ theorem finalOfRes_contextRender (site : Option Site) (req : Request) :
           cases o with
           | returns c p nr =>
             cases c with
-            | some c => cases nr <;> rfl
+            | some c =>
+              simp only [finalOfRes, Option.getD_some]
+              by_cases hr : isResponseCode c = true
+              · have hr' := (isResponseCode_iff c).1 hr
+                simp only [hr, ↓reduceIte, hr', and_self]
+                cases nr <;> rfl
+              · have hr' : ¬ (64 ≤ c ∧ c < 192) := fun h => hr ((isResponseCode_iff c).2 h)
+                simp only [hr, ↓reduceIte, hr']
+                rfl
             | none =>
               have hd : (if req.code = 1 then 69 else if req.code = 5 then 69
                   else if req.code = 4 then 66 else 68) = defaultCode req.code := by
@@ -80,9 +106,16 @@ theorem finalOfRes_contextRender (site : Option Site) (req : Request) :
                 · by_cases h5 : req.code = 5
                   · simp [h5]
                   · simp [h1, h5]
-              simp only [finalOfRes, Option.getD_none, hd]
+              simp only [finalOfRes, Option.getD_none, hd, defaultCode_response, ↓reduceIte]
               cases nr <;> rfl
-          | raisesRenderable c d => rfl
+          | raisesRenderable c d =>
+            simp only [finalOfRes, excToMessage]
+            by_cases hr : isResponseCode c = true
+            · have hr' := (isResponseCode_iff c).1 hr
+              simp only [hr, ↓reduceIte, hr', and_self]
+            · have hr' : ¬ (64 ≤ c ∧ c < 192) := fun h => hr ((isResponseCode_iff c).2 h)
+              simp only [hr, ↓reduceIte, hr']
+              rfl
           | raisesOther t => rfl
           | returnsNonMessage t => rfl
           | rendererFails b t => cases b <;> rfl
@@ -188,17 +221,29 @@ theorem C09_all_sends_final (site : Option Site) (ins : List In) :
     ∀ o ∈ (run (Sys.init site) ins).2, ∀ m l, o.eff = .send m l → l = true :=
   run_sends_final (init_good site) ins
 
+/-- **C09 (nothing but responses is ever sent).**  Whatever the handlers return or raise — a
+message with a request code, with code 0.00, with a signalling code; an error renderer producing
+such a message — every message the rendering side hands to the token interface in any schedule
+carries a response code (classes 2 to 5): nothing a handler does makes the server send a request
+or an empty message of its own on the client's token. -/
+theorem C09_sends_are_responses (site : Option Site) (ins : List In) :
+    ∀ o ∈ (run (Sys.init site) ins).2, ∀ m l, o.eff = .send m l → 64 ≤ m.code ∧ m.code < 192 :=
+  fun o ho m l h => (isResponseCode_iff m.code).1 (run_sends_response (init_good site) ins o ho m l h)
+
 /-- **C09 (bare 5.00, nothing of the exception leaks).**  When the handler reached by the
 request raises a non-renderable exception (also `CancelledError`), returns something that is not a
-message, or raises a renderable error whose renderer raises or returns `None`, the response of
-the table is 5.00 with an EMPTY payload and no options — the same for every exception text, every
-returned value, every method and every site. -/
+message or a message whose code is no response code, or raises a renderable error whose renderer
+raises, returns `None` or renders to something that is no response, the response of the table is
+5.00 with an EMPTY payload and no options — the same for every exception text, every returned
+value or payload, every method and every site. -/
 theorem C09_bare_500 (s : Site) (req : Request) (r : Resource) (o : Outcome)
     (hpath : s.resources.lookup req.path = some r)
     (hcode : 1 ≤ req.code ∧ req.code < 32)
     (hmeth : r.lookup req.code = some o)
     (hfail : (∃ t, o = .raisesOther t) ∨ (∃ t, o = .returnsNonMessage t) ∨
-             (∃ b t, o = .rendererFails b t) ∨ o = .raisesCancelled)
+             (∃ b t, o = .rendererFails b t) ∨ o = .raisesCancelled ∨
+             (∃ c p nr, o = .returns (some c) p nr ∧ ¬ (64 ≤ c ∧ c < 192)) ∨
+             (∃ c d, o = .raisesRenderable c d ∧ ¬ (64 ≤ c ∧ c < 192)))
     (i : Nat) (pre mid post : List In)
     (hpre : ∀ a ∈ pre, a.id ≠ i) (hmid : ∀ a ∈ mid, a ≠ .complete i ∧ a ≠ .stop i) :
     finalsOf i (run (Sys.init (some s)) (pre ++ .deliver i req :: (mid ++ .complete i :: post))).2 =
@@ -206,7 +251,13 @@ theorem C09_bare_500 (s : Site) (req : Request) (r : Resource) (o : Outcome)
   rw [C09_exactly_one_as_tabled _ _ _ _ _ _ hpre hmid]
   have hc : ¬ (req.code = 0 ∨ 32 ≤ req.code) := by omega
   simp only [expectedFinal, hpath, hc, ↓reduceIte, hmeth]
-  rcases hfail with ⟨t, rfl⟩ | ⟨t, rfl⟩ | ⟨b, t, rfl⟩ | rfl <;> rfl
+  rcases hfail with ⟨t, rfl⟩ | ⟨t, rfl⟩ | ⟨b, t, rfl⟩ | rfl | ⟨c, p, nr, rfl, hn⟩ | ⟨c, d, rfl, hn⟩
+  · rfl
+  · rfl
+  · rfl
+  · rfl
+  · simp only [hn, ↓reduceIte]; rfl
+  · simp only [hn, ↓reduceIte]; rfl
 
 /-- **C09 (no exception text leaks — non-interference).**  Replace every exception text, every
 wrongly returned value and every failing renderer's text in the site by the empty text: the
@@ -290,7 +341,12 @@ theorem C09_no_response_propagation (req : Request) (r : Resource) (c : Option N
   · simp only [resourceRender, hq, Bool.not_true, Bool.false_eq_true, ↓reduceIte, hr]
     refine ⟨_, rfl, rfl, ?_⟩
     cases nr <;> rfl
-  · intro e; cases e <;> rfl
+  · intro e
+    cases e with
+    | renderable c d => simp only [excToMessage]; split <;> rfl
+    | rendererRaises t => rfl
+    | rendererNone => rfl
+    | other t => rfl
 
 /-- **C09 (isolation, one step).**  A step for request `a.id` — whatever it is: a failing
 completion, a loss of interest, a delivery — leaves the whole state of every other request `j`
@@ -455,6 +511,43 @@ theorem C09_compose_only_requests (s : State) (remote : Remote) (mcLocal : Bool)
           all_goals simp [sendBare, sendInitially] at h
         · simp at h
 
+-- composition with the TCP token interface ---------------------------------------------------
+
+/-- **C09 (composition: the final response over CoAP-over-TCP).**  `Eff.send m true` of a request
+with token `token` behind a TCP (TLS) server is `_TCPPooling.send_message` of that message
+(`tcpSend`, the function the driver runs in `tcp` mode).  For every response code, every token a
+request can carry (up to 8 bytes) and every payload (below 4 GiB):
+* when the No-Response value the response carries has the bit of the response's class set,
+  **nothing** is written to the connection;
+* otherwise `transport.write` is called **exactly once**, with **one** complete RFC 8323 frame
+  (`Tcp.Rfc8323.Message`: Len nibble / extended length by the 13 / 269 / 65805 rule for the length of
+  the payload marker plus payload, TKL, code, token, payload) of the message that carries the
+  request's token, the response's code, the response's payload and no option — whatever the
+  length, there is no length at which the handler's outcome is replaced by anything else. -/
+theorem C09_compose_tcp_final (token : Bytes) (m : Resp)
+    (hcode : 64 ≤ m.code ∧ m.code < 192) (htok : token.length ≤ 8)
+    (hlen : m.payload.length < 4294967296) :
+    (((m.noResponse.getD 0).testBit (m.code / 32 - 1) = true → tcpSend token m = []) ∧
+     ((m.noResponse.getD 0).testBit (m.code / 32 - 1) = false →
+        ∃ b, tcpSend token m = [.write b] ∧
+          Tcp.Rfc8323.Message b { code := m.code, token, opts := [], payload := m.payload })) :=
+  tcpSend_final token m hcode htok hlen
+
+/-- … and what a schedule sends meets the hypotheses on the code (`C09_sends_are_responses`) and
+carries the token of its request (`C09_token`): every final response of every schedule leaves as
+at most one frame. -/
+theorem C09_compose_tcp_run (site : Option Site) (ins : List In) :
+    ∀ o ∈ (run (Sys.init site) ins).2, ∀ m l, o.eff = .send m l →
+      o.token.length ≤ 8 → m.payload.length < 4294967296 →
+      tcpSend o.token m = [] ∨ ∃ b, tcpSend o.token m = [.write b] ∧
+        Tcp.Rfc8323.Message b { code := m.code, token := o.token, opts := [], payload := m.payload } := by
+  intro o ho m l h htok hlen
+  have hc := C09_sends_are_responses site ins o ho m l h
+  have := C09_compose_tcp_final o.token m hc htok hlen
+  cases hb : (m.noResponse.getD 0).testBit (m.code / 32 - 1)
+  · exact Or.inr (this.2 hb)
+  · exact Or.inl (this.1 hb)
+
 -- non-vacuity and sanity examples -------------------------------------------------------------
 
 def exSite : Site :=
@@ -512,5 +605,17 @@ example :
     (MsgLayer.respond s1 0 (toOutMsg ⟨69, [1], some 2⟩ 42 4 none) true).2 = [] ∧
     (MsgLayer.respond s1 0 (toOutMsg ⟨160, [], none⟩ 42 4 none) true).2 =
       [.send 5 3 ⟨.non, 160, 10, [9], none, 42⟩] := by decide
+
+/-- over TCP: a 2.05 with a 12 byte payload — a body of 13 bytes, the first length of the 8 bit
+form — is written as one frame `d1 00 45 <token> ff <payload>`; with No-Response 2 nothing is;
+a bare 5.00 to a request with an empty token is the two bytes `00 a0` -/
+example :
+    tcpSend [1] ⟨69, List.replicate 12 120, none⟩ =
+      [.write ([209, 0, 69, 1, 255] ++ List.replicate 12 120)] ∧
+    tcpSend [] ⟨160, [], none⟩ = [.write [0, 160]] := by decide
+
+example : tcpSend [1] ⟨69, List.replicate 12 120, some 2⟩ = [] :=
+  (C09_compose_tcp_final [1] ⟨69, List.replicate 12 120, some 2⟩ (by decide) (by decide)
+    (by decide)).1 (by decide)
 
 end Aiocoap.Render
